@@ -91,5 +91,10 @@ def forEachBrk {α σ ε : Type} (xs : List α) (body : α → σ → Except ε 
     | .error e => .error e
     | .ok (.brk s') => .ok s'
     | .ok (.next s') => forEachBrk rest body s'
+/-- `try: body  except <class>: handler  else: orelse` — exceptions of `orelse` are not caught; `orelse` receives what `body` bound -/
+def tryExceptElse {α β ε : Type} (body : Except ε α) (caught : ε → Bool) (handler : Except ε β) (orelse : α → Except ε β) : Except ε β :=
+  match body with
+  | .ok v => orelse v
+  | .error e => if caught e then handler else .error e
 
 end I18n.PyKit
